@@ -478,3 +478,16 @@ Section DetKeys.
         end
     end.
 End DetKeys.
+
+(* ------------------------------------------------------------------ premises of the group-law theorems *)
+
+(* Mathematical facts that are ASSUMED (they are premises of the theorems of
+   Properties/C14.v, C10.v, C16.v, never axioms): together with `prime p` and
+   `prime n` (Znumtheory.prime).  Closure, commutativity, identity, inverses,
+   n*G = O and the correctness of the Jacobian execution are proved. *)
+Definition padd_associative : Prop :=
+  forall P Q R, on_curve P = true -> on_curve Q = true -> on_curve R = true ->
+  padd (padd P Q) R = padd P (padd Q R).
+(* c^((p+1)/4) is a square root of every square (Euler's criterion, p = 3 mod 4) *)
+Definition sqrt_correct : Prop :=
+  forall c y, in_field y = true -> fmul y y = c -> fmul (fsqrt c) (fsqrt c) = c.
